@@ -12,7 +12,7 @@ import { shallow } from "../lib/localise.mjs";
 import { show, valueClass, toEjson, fromEjson } from "../lib/ejson.mjs";
 import { renderProgram, renderType, mapType } from "../gen/ast.mjs";
 import { HASH_PRESERVING, applySteps } from "../gen/rewrite.mjs";
-import { nameHashDifference } from "../lib/rtdiff.mjs";
+import { nameHashDifference, isRecursiveParser } from "../lib/rtdiff.mjs";
 import { coreKinds } from "../gen/typegen.mjs";
 const causeOf = (a, b, recursive) => {
   const c = nameHashDifference(a, b);
@@ -438,7 +438,7 @@ export async function run(ctx) {
           const which = h1[0] !== h3[0] ? "hash256" : h1[1] !== h3[1] && applied.every((a) => H32.includes(a)) ? "hash32" : null;
           if (which) {
             ctx.violation({
-              signature: `${which}-differs|${applied.slice().sort().join("+")}|${causeOf(p1, p3, coreKinds(prog.env, prog.cores.get(ps.name)).has("recursive"))}`,
+              signature: `${which}-differs|${applied.slice().sort().join("+")}|${causeOf(p1, p3, coreKinds(prog.env, prog.cores.get(ps.name)).has("recursive") || isRecursiveParser(p1))}`,
               clause: "digest-depends-on-spelling",
               detail: `${renderType(ps.t).slice(0, 200)} after ${applied.join(", ")}: ${String(h1[which === "hash256" ? 0 : 1]).slice(0, 16)} vs ${String(h3[which === "hash256" ? 0 : 1]).slice(0, 16)}`,
               replay: { kind: "rewrite", original: item.text, rewritten: renderProgram(prog3), parser: ps.name, which },
